@@ -90,7 +90,7 @@ class C30(Check):
                 p = paths[ch.choice(len(paths), "path")]
                 v = vals[p]
                 k = ch.choice(12, "op")
-                data = f"data{ch.choice(4, 'data')}" * (1 + ch.choice(3, "len"))
+                data = f"data{ch.choice(4, 'data')}" * [1, 2, 3, 400][ch.choice(4, "len")]
                 mediated = False
                 try:
                     if k == 0:
@@ -117,6 +117,9 @@ class C30(Check):
                         new = data.encode()
                         if same_size and old:
                             new = bytes((b + 1) % 256 for b in old)
+                            if ch.coin(0.5, "tail-only"):
+                                # only the very last byte differs (content hashes cover it all)
+                                new = old[:-1] + bytes([(old[-1] + 1) % 256])
                         with open(p, "wb") as f:
                             f.write(new)
                         t = tick()
